@@ -25,6 +25,9 @@ EXPLANATION = (
     'queries come from the virtual view (R1.8 = R4.4). That the replay\'s '
     'virtual answers equal the from-scratch answers for every history '
     '(contents of BuildDirs/CreatedFiles) is not decided.')
+# round 3/4 additions
+EXPLANATION += (
+    " R1.10: the replay overlay's bookkeeping is inverse (R5.8), records are not aliased with user-visible objects (R11.1), and the comparisons are JSON equality with its structural rules (R18.3/R18.5). R1.5 also requires the cached suboperations to be copied before the registration that walks them.")
 
 
 def _api_records(ctx):
